@@ -195,8 +195,11 @@ impl<E> CQueue<E> {
         if handle.time >= self.t_current {
             if handle.time == self.t_current {
                 if let Some(i) = self.zero_event_bucket.iter().position(|v| v.2 == handle.id) {
-                    self.zero_event_bucket.remove(i);
+                    // Update the bookkeeping before the payload is dropped: its
+                    // destructor may unwind.
+                    let removed = self.zero_event_bucket.remove(i);
                     self.len -= 1;
+                    drop(removed);
                     return;
                 }
             }
@@ -209,8 +212,9 @@ impl<E> CQueue<E> {
             let index: usize = index as usize;
             let index = index % self.n;
 
-            if self.buckets[index].cancel(&handle) {
+            if let Some(node) = self.buckets[index].cancel(&handle) {
                 self.len -= 1;
+                drop(node);
             }
         }
     }
